@@ -135,6 +135,24 @@ def execute(stim):
                 self.ctl.send(self)
             return 'handled'
 
+    class AuxFsm(edzed.FSM):
+        STATES = ['x']
+        EVENTS = [('ping', None, 'x')]
+
+    class FsmDest(edzed.FSM):
+        """an FSM destination: its entry action reads the event data after the exit events of the
+        same transition were handled by another FSM"""
+        STATES = ['a']
+        EVENTS = [('put', None, 'a')]
+
+        def _event(self, etype, data):
+            self._cur = etype
+            return 'handled' if super()._event(etype, data) else 'rejected'
+
+        def enter_a(self):
+            if isinstance(getattr(self, '_cur', None), str):
+                st['got'] = dict(edzed.fsm_event_data.get())
+
     class PersistentPlain(edzed.AddonPersistence, PlainBase):
         """a plain block with the persistence add-on (another layer between send() and the handler)"""
         def _restore_state(self, state):
@@ -184,7 +202,12 @@ def execute(stim):
             k = conf['kind']
             name = f'b{b}'
             fault = conf.get('fault')
-            if k == 'pplain':
+            if k == 'fdest':
+                if 'aux' not in made:
+                    made['aux'] = AuxFsm('aux')
+                # (not wrapped by counting(): FSM tables are built from the class's own namespace)
+                blk = FsmDest(name, on_exit_a=edzed.Event('aux', 'ping'))
+            elif k == 'pplain':
                 blk = counting(PersistentPlain, b, conf)(name, persistent=True, sync_state=conf.get('sync', True))
             elif k == 'plain':
                 blk = counting(PlainBase, b, conf)(name)
